@@ -62,7 +62,7 @@ def run_wire(vh, cases, name="wire", trace_spec="TraceWire.tla"):
             dead = int(open(cur).read().strip())
             m = re.search(r"(panic: .*?)\n\n", e, re.S)
             msg = (m.group(1) if m else e[-1500:])[:1500]
-            byid[dead] = {"ev": "wtxn", "mode": "server", "outcome": "crash", "alive": False, "msg": msg, "id": dead}
+            byid[dead] = {"ev": "wtxn", "mode": cases[dead].get("mode", "server") if dead < len(cases) else "server", "outcome": "crash", "alive": False, "msg": msg, "id": dead}
             skip = dead + 1
             if crashes >= 8:
                 break               # enough crashes to report; the rest of the shard is not run
@@ -166,6 +166,9 @@ def run_c19(prop, tier):
     for c in tcases:
         for mode in ("txn-direct", "txn-server"):
             txn.append(dict(c, mode=mode))
+    mcases, w3 = tlc_cases(tier, ["EmitMon(0)"], tag="mcw-mon")
+    for i, c in enumerate(mcases):
+        txn.append(dict(c, mode="mon-" + ("monitor", "monitor_cond", "monitor_cond_since")[i % 3]))
     for c in dcases + txn:
         c["text"] = render(c["tree"])[:2000]
     res = shard_run(vh, dcases) + shard_run(vh, txn, n=min(NCPU, 8))
@@ -186,13 +189,14 @@ def run_c19(prop, tier):
     cov = {"states": sum(r["states"] for r in res), "transitions": sum(r["transitions"] for r in res), "traces_validated_against_impl": len(res),
            "corrupted_trees_decoded": sum(1 for e in evs if e["ev"] == "dec"), "decoder_outcomes": out,
            "small_trees_decoded_by_every_decoder": sum(1 for e in evs if e["ev"] == "small"), "decoders": 22,
-           "ill_formed_transactions": len(tcases), "transaction_outcomes": tout, "process_crashes": sum(r["crashes"] for r in res),
+           "ill_formed_transactions": len(tcases), "monitor_requests_followed_by_commits": len(mcases), "transaction_outcomes": tout, "process_crashes": sum(r["crashes"] for r in res),
            "samples": [{"t": c["t"], "mode": c["mode"], "input": c["text"][:300]} for c in (dcases[:: max(1, len(dcases) // 3)][:3] + txn[:: max(1, len(txn) // 3)][:3])],
            "known_findings_seen": verdict["known"],
            "rule": "TLC enumerates Corrupt(v) (every tree one local edit away: a node replaced by each junk atom/array, an element or member dropped, an element "
                    "appended) for the valid encodings of 18 wire types, and every tree of depth/width <= 2 over the keyword atoms; each is decoded (and, if it decodes, "
                    "encoded) under recover; corrupted transactions on a 6-column table (every arithmetic mutator with 0, 2 and 0.5 on integer, real and integer-set "
-                   "columns; dropped members; swapped value kinds) run on the engine and as raw requests followed by an echo on a real server"}
+                   "columns; dropped members; swapped value kinds) run on the engine and as raw requests followed by an echo on a real server; monitor requests "
+                   "(every member present/absent, corrupted ones) are sent on their own connections and followed by an insert, a modify and a delete of the monitored table"}
     write_evidence(prop, tier, "model_checking", cov, time.time() - t0, violations=len(verdict["violations"]),
                    assumptions=["bytes that are not JSON stop in encoding/json before any libovsdb code runs: trees suffice",
                                 "long or deeply nested adversarial inputs and coverage-guided byte fuzzing are outside this technique"])
